@@ -23,6 +23,59 @@ func init() {
 func c16() []*Ob {
 	searchStores := Callee("(*proxy/search.Ingestor).searchStores")
 	return []*Ob{
+		{Prop: "C16", ID: "C16.10", Engine: "DOM(zero value)", Floor: 1,
+			Desc: "a hot store that does not know yet what its oldest data is says so: GrpcV1.earlierThanOldestFrac answers true when FracManager.OldestCT is still zero (between a restart and the first maintenance pass) — every return that is reached under OldestCT == 0 is the constant true; without that a mature store answers a range it has dropped with NO_ERROR and the proxy never asks the long-term tier",
+			Check: func(c *Ctx) {
+				fn := c.Fn("(*storeapi.GrpcV1).earlierThanOldestFrac")
+				if fn == nil {
+					return
+				}
+				isOldest := func(v ssa.Value) bool {
+					return DerivesFrom(v, func(x ssa.Value) bool {
+						cl, ok := x.(ssa.CallInstruction)
+						return ok && strings.HasSuffix(CallName(cl), ".Load") && DerivesFrom(cl.Common().Args[0], func(y ssa.Value) bool { return ValueIsField(y, "fracmanager.FracManager", "OldestCT") })
+					})
+				}
+				zeroFact := func(f Fact) (isZero, ok bool) {
+					bo, isBo := f.Cond.(*ssa.BinOp)
+					if !isBo || (bo.Op != token.EQL && bo.Op != token.NEQ) {
+						return false, false
+					}
+					var other ssa.Value
+					if isOldest(bo.X) {
+						other = bo.Y
+					} else if isOldest(bo.Y) {
+						other = bo.X
+					} else {
+						return false, false
+					}
+					if k, isK := ConstInt(other); !isK || k != 0 {
+						return false, false
+					}
+					return (bo.Op == token.EQL) == f.Val, true
+				}
+				tested, bad := false, false
+				for _, rp := range ReturnPaths(fn, 0) {
+					for _, f := range rp.Facts {
+						if z, ok := zeroFact(f); ok {
+							tested = true
+							if z {
+								if v, isK := ConstBool(rp.Val); !(isK && v) {
+									bad = true
+								}
+							}
+						}
+					}
+				}
+				switch {
+				case !tested:
+					c.Violation("dom:earlierThanOldestFrac:zero", fn.Pos(), "earlierThanOldestFrac does not test OldestCT against zero: a store that has not computed its oldest creation time yet compares the request with 0 and answers \"not earlier\"")
+				case bad:
+					c.Violation("dom:earlierThanOldestFrac:zero", fn.Pos(), "earlierThanOldestFrac does not answer true when OldestCT is zero")
+				default:
+					c.Site(fn.Pos(), "an unknown (zero) oldest creation time counts as earlier")
+				}
+			}},
 		{Prop: "C16", ID: "C16.9", Engine: "PAIR(parallel arrays)", Floor: 1,
 			Desc: "every id of the answer gets its slot: proxyapi.makeProtoDocs writes one document per element of qpr.IDs — the write into the response runs on every iteration of the loop over the ids and nothing leaves that loop early; a fetch stream that fails half way (request context ended after the search phase) yields empty documents for the rest, it does not shorten an answer that is reported complete and without error",
 			Check: func(c *Ctx) {
